@@ -240,12 +240,12 @@ func lessFn(kind int) func(a, b []byte) bool {
 }
 
 type bufRun struct {
-	plan   *BufPlan
-	buf    *z.Buffer
-	raw    []byte   // model: raw regime
-	slices [][]byte // model: slice regime (including empty slices)
-	viol   []Violation
-	opIdx  int
+	plan                                         *BufPlan
+	buf                                          *z.Buffer
+	raw                                          []byte   // model: raw regime
+	slices                                       [][]byte // model: slice regime (including empty slices)
+	viol                                         []Violation
+	opIdx                                        int
 	grows, sorts, migrations, refused, maxSlices int
 }
 
